@@ -190,6 +190,10 @@ class VariableSetProcessor(Collector):
             # this node has no value, continue with children
             return True
 
+        # every value that is given an id stays alive for as long as the cache is used, not only the roots: a deferred
+        # snapshot is completed later, the application can have dropped a collected element by then and python would
+        # hand its identity to a new object (e.g. the value that is returned)
+        self.__var_cache.keep_alive(node_value.value)
         # process this node variable
         process_result = process_variable(self, node_value)
         var_id = process_result.variable_id
